@@ -233,6 +233,8 @@ static void xc_havoc_ghosts(void) { int r; g_exp_shutdown_calls = 0; g_exp_shutd
 static bool xc_exporter_Shutdown(long timeout) { g_exp_shutdown_calls++; g_exp_shutdown_timeout = timeout; return g_exp_shutdown_ret != 0; }
 /* std::atomic<bool>::exchange / std::atomic_flag::test_and_set on a plain field (one call at a time) */
 static bool xc_xchg_bool(bool *obj, bool v) { bool old = *obj; *obj = v; return old; }
+unsigned long g_exp_ff_calls; int g_exp_ff_ret; long g_exp_ff_timeout;
+static bool xc_exporter_ForceFlush(long timeout) { g_exp_ff_calls++; g_exp_ff_timeout = timeout; return g_exp_ff_ret != 0; }
 """
 
 
@@ -261,6 +263,7 @@ def _configure_sd(cfg):
     cfg.ext_methods["std::unique_ptr::operator->"] = lambda em, recv, args, n: recv
     for exp in ("SpanExporter", "LogRecordExporter"):
         cfg.ext_q[exp + "::Shutdown"] = lambda em, node, recv, args: "xc_exporter_Shutdown(%s)" % em.expr(args[0])
+        cfg.ext_q[exp + "::ForceFlush"] = lambda em, node, recv, args: "xc_exporter_ForceFlush(%s)" % em.expr(args[0])
 
 
 def sd_contract(T, latch):
@@ -275,9 +278,24 @@ def sd_contract(T, latch):
             "__CPROVER_ensures((__CPROVER_old(%s) || self->exporter_.id != 0) ==> %s)\n" % (L, L)}
 
 
-contracts_sd = {"SimpleLogRecordProcessor_Shutdown": sd_contract("SimpleLogRecordProcessor", "is_shutdown_"), "SimpleSpanProcessor_Shutdown": sd_contract("SimpleSpanProcessor", "shutdown_latch_")}
+def sff_contract(T):
+    # "when ForceFlush returns true ... the exporter's own ForceFlush has been invoked": exactly one call with the caller's timeout if there is an
+    # exporter, and its answer is what is reported; without an exporter there is nothing to flush
+    return {"pre": "__CPROVER_requires(__CPROVER_is_fresh(self, sizeof(%s)) && g_exp_ff_calls == 0)\n" % T +
+            "__CPROVER_assigns(g_exp_ff_calls, g_exp_ff_timeout)\n"
+            "__CPROVER_ensures(g_exp_ff_calls == (self->exporter_.id != 0 ? 1UL : 0UL) && g_exp_shutdown_calls == __CPROVER_old(g_exp_shutdown_calls))\n"
+            "__CPROVER_ensures(g_exp_ff_calls == 1 ==> (g_exp_ff_timeout == timeout && (__CPROVER_return_value != 0) == (g_exp_ff_ret != 0)))\n"
+            "__CPROVER_ensures(g_exp_ff_calls == 0 ==> __CPROVER_return_value)\n"}
+
+
+contracts_sd = {"SimpleLogRecordProcessor_ForceFlush": sff_contract("SimpleLogRecordProcessor"), "SimpleSpanProcessor_ForceFlush": sff_contract("SimpleSpanProcessor"),
+                "SimpleLogRecordProcessor_Shutdown": sd_contract("SimpleLogRecordProcessor", "is_shutdown_"), "SimpleSpanProcessor_Shutdown": sd_contract("SimpleSpanProcessor", "shutdown_latch_")}
 _psd = [Proof("SimpleLog_Shutdown_once", [("SimpleLogRecordProcessor::Shutdown", 1)], enforce="SimpleLogRecordProcessor_Shutdown", timeout=300, desc="the exporter is shut down by the first Shutdown only"),
         Proof("SimpleSpan_Shutdown_once", [("SimpleSpanProcessor::Shutdown", 1)], enforce="SimpleSpanProcessor_Shutdown", timeout=300, desc="the same for the span processor")]
+_psd += [Proof("SimpleLog_ForceFlush", [("SimpleLogRecordProcessor::ForceFlush", 1)], enforce="SimpleLogRecordProcessor_ForceFlush", timeout=300, desc="ForceFlush reaches the exporter's ForceFlush exactly once with the caller's timeout and reports its answer"),
+         Proof("SimpleSpan_ForceFlush", [("SimpleSpanProcessor::ForceFlush", 1)], enforce="SimpleSpanProcessor_ForceFlush", timeout=300, desc="the same for the span processor")]
+_psd[2].tu = ("tu_simple_log", '#include "%s/sdk/src/logs/simple_log_record_processor.cc"\n' % R.core.REPO)
+_psd[3].tu = ("tu_simple_span", '#include "%s/sdk/include/opentelemetry/sdk/trace/simple_processor.h"\n' % R.core.REPO)
 _psd[0].tu = ("tu_simple_log", '#include "%s/sdk/src/logs/simple_log_record_processor.cc"\n' % R.core.REPO)
 _psd[1].tu = ("tu_simple_span", '#include "%s/sdk/include/opentelemetry/sdk/trace/simple_processor.h"\n' % R.core.REPO)
 for _p in _psd:
